@@ -27,7 +27,7 @@ ASSUMPTIONS = [
     "CFI directives are covered by C08; x86-64 ELF plus one ARM64 ELF module for relocation-modifier expressions (adrp / :lo12: with addends)",
 ]
 BOUNDS = {"quick": {"set_size": 2, "annotation_subsets": 2}, "thorough": {"set_size": 3, "annotation_subsets": 2}}
-CAP_S = {"quick": 150, "thorough": 2400}
+CAP_S = {"quick": 400, "thorough": 2400}
 
 PATCHES = {
     "ord": [["p", 0]],
